@@ -6,23 +6,13 @@ use core::num::NonZeroUsize;
 use std::num::NonZeroU64;
 use std::convert::TryInto;
 verus! {
-global layout usize is size == 8;
 
 //@ include u02_parse.vt.rs
 
 pub mod parse {
     pub use super::{Input, ParseResult, ParseError, leb128_u64, take_n, take1};
-    pub mod leb128 { pub use super::super::Error; }
+    pub use super::leb128;
 }
-/// the `leb128` crate writer: ASSUMED `out == old ++ leb(n)` (backed by Kani harness
-/// u03_leb128_writer_matches_parser for all u64)
-pub mod leb128 { pub mod write {
-    use vstd::prelude::*;
-    verus!{
-    #[verifier::external_body]
-    pub fn unsigned(out: &mut Vec<u8>, n: u64) -> (r: Result<usize, ()>) ensures final(out)@ == old(out)@ + super::super::leb(n as nat), r is Ok { unimplemented!() }
-    }
-}}
 impl<E> ParseError<E> { #[verifier::external_body] pub fn to_string(&self) -> String { unimplemented!() } }
 
 /// ActorId: an opaque byte string (TinyVec inside; only to_bytes / From<&[u8]> are used here)
